@@ -27,7 +27,7 @@ func checkC15(w *World, r *Report) {
 }
 
 func checkC15Recover(w *World, r *Report) {
-	ru := r.Rule("C15.1", "effective recover: the per-request closure of the Recovery middleware defers, as its first action, a function that calls recover() directly; the wrapped handler is called afterwards", 3)
+	ru := r.Rule("C15.1", "effective recover: the per-request closure of the Recovery middleware defers, as its first action, a function that calls recover() directly; the wrapped handler is called afterwards", 2)
 	outer := w.Func("CustomRecoveryWithLogHandler")
 	var inner *ssa.Function
 	for _, a := range withAnon(outer) {
@@ -81,7 +81,7 @@ func checkC15Recover(w *World, r *Report) {
 	}
 	r.Analysed(FuncName(target))
 
-	ru2 := r.Rule("C15.2", "abort re-raised, everything else handled: the only panic of the recovery function re-raises the recovered error under errors.Is(e, http.ErrAbortHandler); the user recovery function is called only when !Written() and !connIsBroken(value); the value handed on is the recovered one", 3)
+	ru2 := r.Rule("C15.2", "abort re-raised, everything else handled: the only panic of the recovery function re-raises the recovered error under errors.Is(e, http.ErrAbortHandler); the user recovery function is called only when !Written() and !connIsBroken(value); the value handed on is the recovered one", 2)
 	var rec ssa.Value
 	eachInstr(target, func(in ssa.Instruction) {
 		if c, ok := in.(*ssa.Call); ok {
@@ -187,7 +187,7 @@ func checkC15Recover(w *World, r *Report) {
 }
 
 func checkC15Redaction(w *World, r *Report) {
-	ru := r.Rule("C15.4", "redaction: the list of redacted headers contains Authorization, Proxy-Authorization, Cookie, Set-Cookie, X-CSRF-Token and X-Vault-Token (any capitalisation); the dumped header name is compared with the list case-insensitively (EqualFold, or canonicalised name against a list whose entries are all in canonical form); a header line is written unredacted only when that comparison failed", 3)
+	ru := r.Rule("C15.4", "redaction: the list of redacted headers contains Authorization, Proxy-Authorization, Cookie, Set-Cookie, X-CSRF-Token and X-Vault-Token (any capitalisation); the dumped header name is compared with the list case-insensitively (EqualFold, or canonicalised name against a list whose entries are all in canonical form); a header line is written unredacted only when that comparison failed", 2)
 	// (a) the list, from the syntax (elements may be named constants; a map keyed by the names is accepted too)
 	want := []string{"authorization", "proxy-authorization", "cookie", "set-cookie", "x-csrf-token", "x-vault-token"}
 	have := map[string]bool{}
